@@ -572,7 +572,9 @@ CTOR = {
 }
 TAUS = [0.3, 0.2, 0.45]
 OMEGAS = [1.0, 2.5]
-D2 = [(0.1, 0.2, "square"), (0.1, 0.2, "upper-triangle"), (0.15, 0.3, "square")]
+D2 = [(0.1, 0.2, "square"), (0.1, 0.0, "upper-triangle"), (0.15, 0.3, "square")]
+# (the triangle is taken at time_1 = 0, as TEMPO uses it: away from the origin CustomSD adds an
+#  uncached integral of correlation(), which is not a combination of memoised eta values)
 EPS = 1e-6      # integration tolerance used in the histories (cheap, deterministic)
 
 
